@@ -299,7 +299,8 @@ func v18NonPrefix(r *verifh.Rand) ndp.Option {
 	case 0:
 		return ndp.NewMTU(uint32(1280 + r.Intn(8000)))
 	case 1:
-		return v12RI("2001:db8:ffff::/48", ndp.High, v18Lifetime(r))
+		// route information, also for ::/0 (RFC 4191): the monitor describes the ROUTER's lifetime, whatever routes it offers
+		return v12RI(verifh.Pick(r, []string{"2001:db8:ffff::/48", "::/0", "::/0", "2000::/3"}), ndp.High, verifh.Pick(r, []time.Duration{0, v18Lifetime(r), 600 * time.Second}))
 	case 2:
 		return v12DNS(v18Lifetime(r), "2001:db8::53")
 	case 3:
